@@ -37,13 +37,18 @@ def events(src, n, rng):
     A = ab.tm(T)
     words = list(U.words_upto(sorted(T.Sigma), n))
     for w in (words if len(words) <= 4 else rng.sample(words, 4)):
-        vs = []
+        vs = [None] * len(BUDGETS)
         bad = "none"
-        for k in BUDGETS:
+        # the budgets are asked in a random order on the same machine object (a verdict must not depend on
+        # what was asked before: large budget first, then a budget below the halting time)
+        order = list(range(len(BUDGETS)))
+        rng.shuffle(order)
+        for i in order:
+            k = BUDGETS[i]
             v, exc = guarded(lambda: tm_accepts_word(T, w, k), 20)
             if exc != "none":
                 bad = exc
-            vs.append("true" if v is True else "false" if v is False else "none")
+            vs[i] = "true" if v is True else "false" if v is False else "none"
         k = rng.choice([0, 1, 2, 3, 4, 6, 8])
         seq, exc = guarded(lambda: tm_simulate_word(T, w, k), 20)
         if exc != "none":
